@@ -8,7 +8,8 @@ LEVEL_TEXT = ("Bounded run-time contracts: every public route that evaluates a t
               "TNLinearOperator views) is executed on thousands of small random (hyper-)graph and 1D networks and compared "
               "with a numpy.einsum denotation times 10**exponent. Nothing is proved; the evidence is the absence of "
               "counterexamples on the stated domain apart from the listed known findings.")
-LEVEL_NOTE = ("Trusted: numpy.einsum (sublist form, no optimisation) and numpy dense algebra as reference; reading "
+LEVEL_NOTE = ("Trusted: numpy.einsum (sublist form; numpy's own pairwise ordering above 5000 index combinations) and numpy "
+              "dense algebra as reference; reading "
               "t.data / t.inds / tn.exponent of a result network; scale-aware tolerances (1e-9 double, 3e-4 single, "
               "relative to the sum of the moduli of the summed terms). Domain: <= 6 tensors, rank <= 4, dims <= 3.")
 TECHNIQUE = "run-time contracts on the real functions vs independent numpy references over a stated bounded domain (bounded stand-in)"
